@@ -348,6 +348,32 @@ def judgeAnswer (q : Q) (pushOuter : Bool) (rows : List Src) (ans : Json) : Exce
           | some _ => o.isNone     -- bag-valued: the sort model fixes one tie-break, acceptance is the rank rule
         pure (o, k)
 
+/-- What mode Indexed returns when the harness's mock index answers: rows skip..skip+k of the table in table order (`C43_index_window`), each
+    output column looked up in the provider's batch by name — `byOutputName = true` is the operator as coded (the query's output name: finding
+    C43-F2), `false` the intended lookup by the scan column the rule extracted.  `none`: the VectorSearch node is not at the root. -/
+def indexPredict (byOutputName : Bool) (dim : Nat) (dim2 : Option Nat) (rows : List Src) (final : Plan) : Option (Except String (List (List OutCell))) :=
+  let go (info : VsInfo) (top : Option (List PExpr)) : Except String (List (List OutCell)) := do
+    let scanCols := info.outputs.map (·.1)
+    let tyOf (c : String) : String := if c == "emb" then s!"fsl<f32,{dim}>" else if c == "e2" then s!"fsl<f32,{dim2.getD 0}>" else "i64"
+    let matched ← info.outputs.mapM fun (o : String × Field) => do
+      let want := if byOutputName then o.2.name else o.1
+      match scanCols.find? (fun c => eqIgnoreAsciiCase c want) with
+      | none => throw "missing column"
+      | some m => if tyOf m != o.2.ty then throw "plan expects" else pure m
+    let win := ((rows.take (info.skip + info.k)).drop info.skip).take info.k
+    let vsRows := win.map fun r => matched.map fun m => (expectCell m r).getD .other
+    match top with
+    | none => pure vsRows
+    | some exprs =>
+      let pos ← exprs.mapM fun e => match stripAlias e with
+        | .col _ c => (match info.outputs.findIdx? (fun o => o.2.name == c) with | some i => pure i | none => throw "top projection")
+        | _ => throw "top projection"
+      pure (vsRows.map fun r => pos.map fun i => r.getD i .other)
+  match final with
+  | .vsearch info .. => some (go info none)
+  | .project exprs _ (.vsearch info ..) => some (go info (some exprs))
+  | _ => none
+
 def handleSql (c i : Json) : Except String Driver.Verdict := do
   let dim ← Driver.getNat c "dim"
   let dim2 := (c.getObjValAs? Nat "dim2").toOption
@@ -416,21 +442,31 @@ def handleSql (c i : Json) : Except String Driver.Verdict := do
       -- the index path answers (approximate by permission): the mock returns the first skip+k rows of the table in table order
       tags := tags ++ ["path:index"]
       if calls == 0 then kAns := false
-      match ← answerRows prod with
-      | none => oracle := oracle <|> some s!"indexed mode failed: {trunc ((errMsg prod).getD "?") 120}"
-      | some out =>
-        let topOnly := match (do PlanJson.planOrErr (← Driver.getObj i "final")) with
-          | .ok (.ok (.vsearch ..)) => true
-          | .ok (.ok (.project _ _ (.vsearch ..))) => true
-          | _ => false
-        match q.sel.findIdx? (fun s => s.1 == "id"), q.limit with
-        | some p, some k =>
-          if topOnly then
-            let want := ((rows.take ((q.offset.getD 0) + k)).drop (q.offset.getD 0)).map (fun r => OutCell.int r.id)
-            if out.map (fun o => o.getD p .null) != want then kAns := false
-            nt := true
-          else tags := tags ++ ["idx-nested"]
-        | _, _ => pure ()
+      let implRows ← answerRows prod
+      let implErr := errMsg prod
+      let fin : Option Plan := match (do PlanJson.planOrErr (← Driver.getObj i "final")) with | .ok (.ok p) => some p | _ => none
+      let same (p : Except String (List (List OutCell))) : Bool := match p, implRows, implErr with
+        | .ok r, some out, _ => r == out
+        | .error e, none, some m => contains m e
+        | _, _, _ => false
+      -- O (no model): the statement must not fail, and every returned row must be a table row projected as the SELECT list says
+      let oIdx : Option String := match implRows with
+        | none => some s!"mode Indexed failed on a statement the rule rewrote: {trunc (implErr.getD "?") 140}"
+        | some out => match identify q rows out with | .error e => some s!"mode Indexed: {e}" | .ok _ => none
+      match fin.bind (fun f => (indexPredict false dim dim2 rows f).bind fun a => (indexPredict true dim dim2 rows f).map fun b => (a, b)) with
+      | some (intended, coded) =>
+        nt := true
+        if same intended then pure ()
+        else
+          kAns := false
+          -- known finding C43-F2: outputs looked up in the provider's batch by the query's output name
+          if same coded then attr := some "C43-F2"
+        if !same coded then tags := tags ++ ["idx:not-as-coded"]
+        if q.sel.any (fun s => s.2.isSome) then tags := tags ++ ["idx:aliased"]
+      | none => tags := tags ++ ["idx-nested"]
+      match oIdx with
+      | some w => oracle := oracle <|> some w
+      | none => pure ()
     else
       if finalVs > 0 then tags := tags ++ [if mode == "indexed" then "path:declined" else "path:exact"]
       let (oP, kP) ← judgeAnswer q false rows prod
